@@ -415,15 +415,28 @@ Lemma body_part_compound n x :
   kid1 n "stmt" = Some x -> is_cls "Compound" x = true -> body_part n = pass_kid n "stmt".
 Proof. intros K C. unfold body_part, pass_kid. rewrite K, C, (compound_cov x C). reflexivity. Qed.
 
+Lemma list_s_eqb_eq a b : list_s_eqb a b = true -> a = b.
+Proof.
+  revert b. induction a as [|x a IH]; intros [|y b]; simpl; try discriminate; [reflexivity|].
+  intros H. apply andb_true_iff in H. destruct H as [H1 H2]. apply String.eqb_eq in H1. subst. f_equal. apply IH. exact H2.
+Qed.
+
+Lemma wf_slots c a ks an sl : schema_of c = Some (an, sl) -> wf_pyc (Node c a ks) = true -> map fst ks = map fst sl.
+Proof.
+  intros S W. simpl in W. rewrite S in W. rewrite !andb_true_iff in W. destruct W as [[_ W] _]. apply list_s_eqb_eq. exact W.
+Qed.
+
 Lemma wf_has_stmt c a ks :
   (c = "While" \/ c = "DoWhile" \/ c = "For") -> wf_pyc (Node c a ks) = true -> has_slot "stmt" (Node c a ks) = true.
 Proof.
-  intros Hc W. simpl in W.
-  destruct Hc as [->|[->|->]]; simpl in W; rewrite !andb_true_iff in W; destruct W as [[_ W] _];
-    unfold has_slot, slot; simpl;
-    repeat (destruct ks as [|[? ?] ks]; simpl in W; try discriminate);
-    repeat match goal with H : (_ && _) = true |- _ => apply andb_true_iff in H; destruct H end;
-    repeat match goal with H : String.eqb _ _ = true |- _ => apply String.eqb_eq in H; subst end; reflexivity.
+  intros Hc W. unfold has_slot, slot. simpl nkids.
+  destruct Hc as [Hc|[Hc|Hc]]; subst c.
+  - pose proof (wf_slots "While" a ks _ _ eq_refl W) as M. simpl in M.
+    destruct ks as [|[s1 l1] [|[s2 l2] [|? ?]]]; simpl in M; try discriminate. inversion M; subst. reflexivity.
+  - pose proof (wf_slots "DoWhile" a ks _ _ eq_refl W) as M. simpl in M.
+    destruct ks as [|[s1 l1] [|[s2 l2] [|? ?]]]; simpl in M; try discriminate. inversion M; subst. reflexivity.
+  - pose proof (wf_slots "For" a ks _ _ eq_refl W) as M. simpl in M.
+    destruct ks as [|[s1 l1] [|[s2 l2] [|[s3 l3] [|[s4 l4] [|? ?]]]]]; simpl in M; try discriminate. inversion M; subst. reflexivity.
 Qed.
 
 (* the body slot after cleaning, and what the two walkers see of it *)
@@ -579,4 +592,155 @@ Proof.
   split.
   - rewrite (cov_base c a ks' s Hin). unfold iter_kids. rewrite Kl'. apply iter_from_all_nil. exact C.
   - unfold vmono. subst n. rewrite (vitems_base c a ks' s Hin), (vitems_base c a ks s Hin), Kl', Kl. exact V.
+Qed.
+
+(* ---------- FuncDef: parameters (three levels down) and body ---------- *)
+Lemma apply_routed2 A1 A2 n s1 s2 :
+  s1 <> s2 -> routed (s1, 0) A1 -> routed (s2, 0) A2 ->
+  kid1 (apply_clears (A1 ++ A2) n) s1 = option_map (apply_clears (descend s1 0 A1)) (kid1 n s1) /\
+  kid1 (apply_clears (A1 ++ A2) n) s2 = option_map (apply_clears (descend s2 0 A2)) (kid1 n s2).
+Proof.
+  intros N R1 R2.
+  assert (N1 : (s1, 0) <> (s2, 0)) by (intro E; inversion E; congruence).
+  assert (N2 : (s2, 0) <> (s1, 0)) by (intro E; inversion E; congruence).
+  split.
+  - rewrite kid1_apply_through.
+    + rewrite descend_app, (routed_other (s2, 0) A2 s1 0 R2 N1), app_nil_r. reflexivity.
+    + rewrite has_act_app, (routed_no_here (s1, 0) A1), (routed_no_here (s2, 0) A2); auto.
+    + rewrite has_act_app, (routed_no_here (s1, 0) A1), (routed_no_here (s2, 0) A2); auto.
+  - rewrite kid1_apply_through.
+    + rewrite descend_app, (routed_other (s1, 0) A1 s2 0 R1 N2). reflexivity.
+    + rewrite has_act_app, (routed_no_here (s1, 0) A1), (routed_no_here (s2, 0) A2); auto.
+    + rewrite has_act_app, (routed_no_here (s1, 0) A1), (routed_no_here (s2, 0) A2); auto.
+Qed.
+
+Lemma option_map_id_nil (o : option node) : option_map (apply_clears []) o = o.
+Proof. destruct o; simpl; [rewrite apply_clears_nil|]; reflexivity. Qed.
+
+Lemma P_FuncDef a ks : Forall (fun sk => Forall D (snd sk)) ks -> P (Node "FuncDef" a ks).
+Proof.
+  intros IH Hw He Hi. set (n := Node "FuncDef" a ks) in *.
+  assert (E : cov n = args_part n ++ pass_kid n "body") by apply cov_FuncDef.
+  rewrite E, has_err_app in He. apply orb_false_iff in He. destruct He as [He1 He2].
+  rewrite E, has_inh_app in Hi. apply orb_false_iff in Hi. destruct Hi as [Hi1 Hi2].
+  destruct (kid1 n "decl") as [d|] eqn:Kd; [|unfold args_part in He1; rewrite Kd in He1; discriminate].
+  pose proof (Forall_kid1 D "FuncDef" a ks "decl" d IH Kd) as Dd.
+  pose proof (wf_kid1 _ _ _ Hw Kd) as Wd.
+  assert (R1 : routed ("decl", 0) (acts (args_part n))).
+  { unfold args_part. rewrite Kd. destruct (kid1 d "type") as [t|]; [|apply routed_nil].
+    destruct (kid1 t "args") as [x|]; [|apply routed_nil]. apply routed_pass. }
+  assert (R2 : routed ("body", 0) (acts (pass_kid n "body"))).
+  { unfold pass_kid. destruct (kid1 n "body"); [apply routed_pass | apply routed_nil]. }
+  destruct (apply_routed2 _ _ n "decl" "body" ltac:(discriminate) R1 R2) as [K1 K2].
+  destruct (clean_shape n) as [ks' Ec]. simpl in Ec.
+  assert (A : acts (cov n) = acts (args_part n) ++ acts (pass_kid n "body")) by (rewrite E; apply acts_app).
+  unfold clean in Ec. rewrite A in Ec. rewrite Ec in K1, K2.
+  (* body *)
+  assert (Kb : kid1 (Node "FuncDef" a ks') "body" = option_map clean (kid1 n "body")).
+  { rewrite K2. unfold pass_kid. destruct (kid1 n "body") as [b|] eqn:Kb; simpl; [|reflexivity].
+    rewrite (descend_pass' "body" 0 [] (cov b)), map_pass_nil. reflexivity. }
+  assert (Pb : pass_kid (Node "FuncDef" a ks') "body" = [] /\
+               vsub (ovitems (kid1 (Node "FuncDef" a ks') "body")) (ovitems (kid1 n "body"))).
+  { unfold pass_kid. rewrite Kb. destruct (kid1 n "body") as [b|] eqn:Kbb; simpl; [|split; [reflexivity | apply vsub_nil]].
+    unfold pass_kid in He2, Hi2. rewrite Kbb in He2, Hi2. rewrite has_err_pass in He2. rewrite has_inh_pass in Hi2.
+    destruct (D_self b (Forall_kid1 D "FuncDef" a ks "body" b IH Kbb) (wf_kid1 _ _ _ Hw Kbb) He2 Hi2) as [C V].
+    rewrite C. split; [reflexivity | exact V]. }
+  (* parameters *)
+  assert (Pa : args_part (Node "FuncDef" a ks') = [] /\ vsub (vargs_part (Node "FuncDef" a ks')) (vargs_part n)).
+  { unfold args_part, vargs_part. rewrite K1, Kd. simpl option_map. cbv iota beta.
+    unfold args_part in He1, Hi1 |- *. rewrite Kd in He1, Hi1 |- *.
+    destruct (kid1 d "type") as [t|] eqn:Kt.
+    2:{ change (acts []) with (@nil action). rewrite descend_nil, apply_clears_nil, Kt. split; [reflexivity | apply vsub_refl]. }
+    destruct (kid1 t "args") as [x|] eqn:Kx.
+    2:{ change (acts []) with (@nil action). rewrite descend_nil, apply_clears_nil, Kt, Kx. split; [reflexivity | apply vsub_refl]. }
+    rewrite (descend_pass' "decl" 0 [("type", 0); ("args", 0)] (cov x)).
+    destruct (apply_routed (acts (map (pass [("type", 0); ("args", 0)]) (cov x))) d "type" (routed_pass ("type", 0) [("args", 0)] (cov x))) as [Q1 _].
+    rewrite Q1, Kt. simpl option_map. cbv iota beta.
+    rewrite (descend_pass' "type" 0 [("args", 0)] (cov x)).
+    destruct (apply_routed (acts (map (pass [("args", 0)]) (cov x))) t "args" (routed_pass ("args", 0) [] (cov x))) as [Q2 _].
+    rewrite Q2, Kx. simpl option_map. cbv iota beta.
+    rewrite (descend_pass' "args" 0 [] (cov x)), map_pass_nil.
+    rewrite has_err_pass in He1. rewrite has_inh_pass in Hi1.
+    pose proof (D_kid1 d "type" t Dd Kt) as Dt. pose proof (D_kid1 t "args" x Dt Kx) as Dx.
+    pose proof (wf_kid1 _ _ _ (wf_kid1 _ _ _ Wd Kt) Kx) as Wx.
+    destruct (D_self x Dx Wx He1 Hi1) as [C V]. fold (clean x). rewrite C. split; [reflexivity | exact V]. }
+  unfold clean. rewrite A, Ec. rewrite cov_FuncDef. destruct Pa as [Pa1 Pa2]. destruct Pb as [Pb1 Pb2]. rewrite Pa1, Pb1.
+  split; [reflexivity|]. unfold vmono. subst n. rewrite !vitems_FuncDef. apply vsub_app; assumption.
+Qed.
+
+(* ---------- every node ---------- *)
+Lemma D_to_P ks : Forall (fun sk => Forall D (snd sk)) ks -> Forall (fun sk : string * list node => Forall P (snd sk)) ks.
+Proof.
+  intros H. eapply Forall_impl; [|exact H]. intros sk Hs. eapply Forall_impl; [|exact Hs]. intros x. apply D_self.
+Qed.
+
+Lemma P_step c a ks : Forall (fun sk => Forall D (snd sk)) ks -> P (Node c a ks).
+Proof.
+  intros IHD. pose proof (D_to_P ks IHD) as IH.
+  destruct (in_s c COV_REJECT) eqn:Rj; [apply P_fire, cov_reject; exact Rj|].
+  destruct (String.eqb_spec c "FuncCall") as [->|Nf].
+  { destruct (fcall_special (Node "FuncCall" a ks)) eqn:Sp.
+    - apply P_trivial. rewrite cov_FuncCall, Sp. reflexivity.
+    - apply P_fire. rewrite cov_FuncCall, Sp. reflexivity. }
+  destruct (resolve COVERAGE_METHODS c) eqn:R.
+  - apply resolve_walker in R. cbn [In COVERAGE_METHODS] in R.
+    repeat match goal with H : _ \/ _ |- _ => destruct H as [H|H] end; try contradiction; subst c.
+    + apply P_Assignment; exact IH.
+    + destruct (cov (Node "BinaryOp" a ks)) eqn:E; [apply P_trivial; exact E|].
+      apply P_fire. rewrite cov_BinaryOp in E |- *. destruct (_ && _); [discriminate | reflexivity].
+    + apply P_Cast; exact IH.
+    + destruct (cov (Node "Decl" a ks)) eqn:E; [apply P_trivial; exact E|].
+      apply P_fire. rewrite cov_Decl in E |- *. destruct (_ && _); [discriminate | reflexivity].
+    + apply P_DoWhile; exact IH.
+    + apply P_For; exact IH.
+    + congruence.
+    + apply P_FuncDef; exact IHD.
+    + apply P_If; exact IH.
+    + apply P_Return; exact IH.
+    + apply P_UnaryOp; exact IH.
+    + apply P_While; exact IH.
+  - destruct (resolve_base _ _ R) as [s Hs]. apply (P_base c a ks s Hs IH).
+  - apply P_trivial. apply cov_nh; assumption.
+  - apply P_fire. apply cov_none; assumption.
+Qed.
+
+Theorem D_all n : D n.
+Proof.
+  induction n as [c a ks IH] using node_ind'. unfold D. simpl. constructor.
+  - apply P_step. exact IH.
+  - apply Forall_flat_map. apply Forall_forall. intros [s l] Hin. simpl.
+    rewrite Forall_forall in IH. specialize (IH (s, l) Hin). simpl in IH.
+    apply Forall_flat_map. eapply Forall_impl; [|exact IH]. intros x Hx. exact Hx.
+Qed.
+
+Theorem P_all n : P n.
+Proof. apply D_self, D_all. Qed.
+
+(* ---------- the C07 statements ---------- *)
+Theorem idempotent_full t t' : wf_pyc t = true -> ast_mod t = Ok t' -> full t' = true.
+Proof.
+  intros W H. unfold ast_mod in H. destruct (coverage t) as [l|] eqn:C; [|discriminate]. inversion H; subst t'. clear H.
+  unfold coverage in C. destruct (cov_entries_ok _ _ C) as [Hi [He M]].
+  destruct (P_all t W He Hi) as [Cc _]. unfold clean in Cc. rewrite <- M in Cc.
+  unfold full, coverage. rewrite Cc. reflexivity.
+Qed.
+
+Theorem supported_untouched t : full t = true -> ast_mod t = Ok t.
+Proof.
+  unfold full, ast_mod. destruct (coverage t) as [[|e l]|]; try discriminate. intros _. simpl. rewrite apply_clears_nil. reflexivity.
+Qed.
+
+(* strict mode refuses a function that is not fully supported (and never touches it) *)
+Theorem strict_refuses t : full t = false -> (exists l, coverage t = Ok l) -> syntax_check t true = Ok (false, t).
+Proof.
+  unfold full, syntax_check. intros F [l C]. rewrite C in *. destruct l; [discriminate | reflexivity].
+Qed.
+
+Theorem default_mode_cleans t r : wf_pyc t = true -> syntax_check t false = Ok r -> fst r = true /\ full (snd r) = true.
+Proof.
+  intros W. unfold syntax_check. destruct (coverage t) as [l|] eqn:C; [|discriminate].
+  destruct l as [|e l].
+  - intros H. inversion H; subst. simpl. split; [reflexivity|]. unfold full. rewrite C. reflexivity.
+  - intros H. inversion H; subst. simpl. split; [reflexivity|].
+    apply (idempotent_full t); [exact W|]. unfold ast_mod. rewrite C. reflexivity.
 Qed.
